@@ -18,6 +18,14 @@ Import ListNotations.
 From Zap Require Import Base.Wire.
 Local Open Scope Z_scope.
 
+(* Names (constructors, FieldType constants, encoder methods, wrapper types) are byte strings;
+   [$"abc"] is the literal, evaluated when the definition is elaborated, so that no Coq [string]
+   reaches the extracted code. *)
+Definition lit (s : string) : bytes := list_byte_of_string s.
+Notation "$ s" := (ltac:(let x := eval vm_compute in (lit s) in exact x))
+  (at level 0, s at level 0, only parsing).
+Definition name := bytes.
+
 (* ---------- numeric types ---------- *)
 Inductive num := NInt | NInt64 | NInt32 | NInt16 | NInt8
                | NUint | NUint64 | NUint32 | NUint16 | NUint8 | NUintptr | NDuration.
@@ -84,7 +92,8 @@ Record opq := { oty : Z;        (* dynamic type identity *)
                 ocontent : Z;   (* content class: equal iff structurally equal *)
                 ocmp : bool;    (* the dynamic type is comparable (== does not panic) *)
                 oself : bool;   (* the content equals itself (no NaN / func inside) *)
-                ostr : bytes }. (* what String() / Error() returns (oracle shipped with the case) *)
+                ostr : bytes;   (* what String() returns (oracle shipped with the case) *)
+                oerr : bytes }. (* what Error() returns *)
 
 Record timev := { tinst : Z; tloc : Z }.
 Definition loc_utc : Z := 0.
@@ -96,12 +105,12 @@ Inductive val :=
 | VStr (s : bytes) | VBytes (isnil : bool) (s : bytes)
 | VTime (t : timev) | VLoc (l : Z)
 | VOpq (o : opq) | VNil | VPtr (v : val)
-| VSlice (isnil : bool) (l : list val)
-| VWrap (w : string) (v : val)                       (* conversion to a zap-internal named type *)
+| VSlice (addr : Z) (l : list val)           (* addr: identity of the backing array and length, 0 for a nil slice *)
+| VWrap (w : name) (v : val)                       (* conversion to a zap-internal named type *)
 | VFld (ft : Z) (k : bytes) (i : Z) (s : bytes) (x : val)   (* a zapcore.Field *)
-| VCalls (l : list (string * bytes * val)).          (* what a zap-owned marshaler did to its encoder *)
+| VCalls (l : list (name * bytes * val)).          (* what a zap-owned marshaler did to its encoder *)
 
-Definition call := (string * bytes * val)%type.
+Definition call := (name * bytes * val)%type.
 
 (* ---------- expressions ---------- *)
 Inductive expr :=
@@ -115,7 +124,7 @@ Inductive expr :=
 | EIfBool (e : expr)                     (* var i int64; if e { i = 1 } *)
 | EEqZ (e : expr) (z : Z)                (* e == z *)
 | EDeref (e : expr) | EAddr (e : expr)
-| EWrapAs (w : string) (e : expr)        (* w(e), w a zap-internal named slice type *)
+| EWrapAs (w : name) (e : expr)        (* w(e), w a zap-internal named slice type *)
 | EStrConv (e : expr)                    (* string(e), e of a ~string type *)
 | EAssert (t : gty) (e : expr)           (* e.(T) *)
 | EUnixNano (e : expr) | ELocation (e : expr)
@@ -132,7 +141,7 @@ Definition is_nilv (v : val) : option bool :=
   match v with
   | VNil => Some true
   | VPtr _ | VOpq _ | VWrap _ _ | VLoc _ => Some false
-  | VSlice n _ => Some n
+  | VSlice a _ => Some (a =? 0)
   | VBytes n _ => Some n
   (* a non-pointer, non-interface value stored in an interface is never nil *)
   | _ => Some false
@@ -195,18 +204,18 @@ Fixpoint eval (r : env) (e : expr) : option val :=
   end.
 
 (* ---------- constructor bodies ---------- *)
-Inductive kexpr := KKey | KLit (s : string) | KNone.
+Inductive kexpr := KKey | KLit (s : name) | KNone.
 
 Inductive body :=
-| BLit (ft : string) (k : kexpr) (i s x : option expr)    (* return Field{Key:, Type:, Integer:, String:, Interface:} *)
-| BDeleg (c : string) (k : kexpr) (a : option expr)       (* return c(key, a) *)
+| BLit (ft : name) (k : kexpr) (i s x : option expr)    (* return Field{Key:, Type:, Integer:, String:, Interface:} *)
+| BDeleg (c : name) (k : kexpr) (a : option expr)       (* return c(key, a) *)
 | BIf (c : expr) (b1 b2 : body).                          (* if c { b1 }; b2 *)
 
-Record ctor := { c_name : string; c_param : gty; c_body : body }.
+Record ctor := { c_name : name; c_param : gty; c_body : body }.
 
 (* ---------- AddTo arms and array wrappers ---------- *)
 Inductive arm :=
-| ACall (m : string) (a : option expr)   (* [err =] enc.M(f.Key[, a]) *)
+| ACall (m : name) (a : option expr)   (* [err =] enc.M(f.Key[, a]) *)
 | AInline (a : expr)                     (* err = a.MarshalLogObject(enc) *)
 | AStringer (a : expr)                   (* err = encodeStringer(f.Key, a, enc) *)
 | AError (a : expr)                      (* err = encodeError(f.Key, a, enc) *)
@@ -214,9 +223,9 @@ Inductive arm :=
 | AIf (c : expr) (a b : arm).
 
 Inductive loop :=
-| LAppend (m : string) (e : expr)        (* for i := range xs { arr.M(e) } *)
-| LAppendErr (m : string) (e : expr)     (* ... if err := arr.M(e); err != nil { return err } *)
-| LErrs (k : string)                     (* errArray: nil elements skipped, the others appended as an object
+| LAppend (m : name) (e : expr)        (* for i := range xs { arr.M(e) } *)
+| LAppendErr (m : name) (e : expr)     (* ... if err := arr.M(e); err != nil { return err } *)
+| LErrs (k : name)                     (* errArray: nil elements skipped, the others appended as an object
                                             whose marshaler runs Error(e).AddTo(enc), Error's key being k *)
 | LFields.                               (* dictObject: for _, f := range d { f.AddTo(enc) } *)
 
@@ -225,25 +234,25 @@ Inductive eqclass := QBytes | QDeep | QComplexBits | QDefault.
 
 Record tables := {
   t_ctors : list ctor;
-  t_ftypes : list (string * Z);          (* the FieldType enumeration *)
-  t_arms : list (string * arm);          (* AddTo: FieldType name -> arm; anything else panics *)
-  t_wrappers : list (string * loop);
-  t_eq : list (string * eqclass);        (* Equals: explicit cases; anything else is QDefault *)
-  t_any : list (gty * string);           (* zap.Any's type switch in source order; default = Reflect *)
+  t_ftypes : list (name * Z);          (* the FieldType enumeration *)
+  t_arms : list (name * arm);          (* AddTo: FieldType name -> arm; anything else panics *)
+  t_wrappers : list (name * loop);
+  t_eq : list (name * eqclass);        (* Equals: explicit cases; anything else is QDefault *)
+  t_any : list (gty * name);           (* zap.Any's type switch in source order; default = Reflect *)
   t_implements : list (gty * iface);     (* which listed concrete type implements which listed interface *)
 }.
 
-Fixpoint assoc {A} (k : string) (l : list (string * A)) : option A :=
-  match l with [] => None | (k', a) :: r => if String.eqb k k' then Some a else assoc k r end.
-Fixpoint rassoc (z : Z) (l : list (string * Z)) : option string :=
+Fixpoint assoc {A} (k : name) (l : list (name * A)) : option A :=
+  match l with [] => None | (k', a) :: r => if bytes_eqb k k' then Some a else assoc k r end.
+Fixpoint rassoc (z : Z) (l : list (name * Z)) : option name :=
   match l with [] => None | (k, z') :: r => if Z.eqb z z' then Some k else rassoc z r end.
-Fixpoint find_ctor (n : string) (l : list ctor) : option ctor :=
-  match l with [] => None | c :: r => if String.eqb n (c_name c) then Some c else find_ctor n r end.
+Fixpoint find_ctor (n : name) (l : list ctor) : option ctor :=
+  match l with [] => None | c :: r => if bytes_eqb n (c_name c) then Some c else find_ctor n r end.
 
 (* ---------- a Field ---------- *)
 Record field := { f_ty : Z; f_key : bytes; f_int : Z; f_str : bytes; f_ifc : val }.
 
-Definition bs (s : string) : bytes := list_byte_of_string s.
+Definition bs (s : name) : bytes := s.
 Definition keyv (k : kexpr) (key : bytes) : bytes :=
   match k with KKey => key | KLit s => bs s | KNone => [] end.
 
@@ -254,7 +263,7 @@ Definition opt_eval (r : env) (o : option expr) (dflt : val) : option val :=
   match o with None => Some dflt | Some e => eval r e end.
 
 (* run a constructor body; [self] interprets delegation *)
-Fixpoint run_body (T : tables) (self : string -> bytes -> val -> option field)
+Fixpoint run_body (T : tables) (self : name -> bytes -> val -> option field)
          (b : body) (key : bytes) (r : env) : option field :=
   match b with
   | BLit ft k i s x =>
@@ -279,7 +288,7 @@ Fixpoint run_body (T : tables) (self : string -> bytes -> val -> option field)
       end
   end.
 
-Fixpoint construct (T : tables) (fuel : nat) (stack : bytes) (c : string) (key : bytes) (v : val) : option field :=
+Fixpoint construct (T : tables) (fuel : nat) (stack : bytes) (c : name) (key : bytes) (v : val) : option field :=
   match fuel with
   | O => None
   | S n =>
@@ -320,7 +329,7 @@ Definition run_loop (addto : field -> option (list call)) (l : loop) (xs : list 
   | LErrs k =>
       oconcat (fun x => match x with
                         | VNil => Some []
-                        | VOpq o => Some [("AppendObject"%string, [], VCalls [("AddString"%string, bs k, VStr (ostr o))])]
+                        | VOpq o => Some [(($"AppendObject"), [], VCalls [(($"AddString"), bs k, VStr (oerr o))])]
                         | _ => None end) xs
   | LFields =>
       oconcat (fun x => match field_of_val x with Some f => addto f | None => None end) xs
@@ -341,8 +350,8 @@ Definition deliver_marshaler (T : tables) (addto : field -> option (list call)) 
   | _ => Some v
   end.
 
-Definition is_marshal_method (m : string) : bool :=
-  (String.eqb m "AddArray" || String.eqb m "AddObject")%bool.
+Definition is_marshal_method (m : name) : bool :=
+  orb (bytes_eqb m ($"AddArray")) (bytes_eqb m ($"AddObject")).
 
 Fixpoint run_arm (T : tables) (addto : field -> option (list call)) (a : arm) (f : field) : option (list call) :=
   let r := fenv f VNil in
@@ -358,19 +367,19 @@ Fixpoint run_arm (T : tables) (addto : field -> option (list call)) (a : arm) (f
       end
   | AInline e =>
       match eval r e with
-      | Some (VOpq o) => Some [("MarshalLogObject"%string, [], VOpq o)]
+      | Some (VOpq o) => Some [(($"MarshalLogObject"), [], VOpq o)]
       | Some (VWrap w u) => (* a zap-internal object marshaler inlined: its calls go to enc directly *)
           match deliver_marshaler T addto (VWrap w u) with Some (VCalls l) => Some l | _ => None end
       | _ => None
       end
   | AStringer e =>
       match eval r e with
-      | Some (VOpq o) => Some [("AddString"%string, f_key f, VStr (ostr o))]
+      | Some (VOpq o) => Some [(($"AddString"), f_key f, VStr (ostr o))]
       | _ => None
       end
   | AError e =>
       match eval r e with
-      | Some (VOpq o) => Some [("AddString"%string, f_key f, VStr (ostr o))]
+      | Some (VOpq o) => Some [(($"AddString"), f_key f, VStr (oerr o))]
       | _ => None
       end
   | ASkip => Some []
@@ -434,7 +443,7 @@ Definition ifc_eq (a b : val) : option bool :=
   | VLoc x, VLoc y => Some (x =? y)
   | VTime x, VTime y => Some ((tinst x =? tinst y) && (tloc x =? tloc y))
   | VBytes _ _, VBytes _ _ => None                       (* []byte is not comparable *)
-  | VWrap w _, VWrap w' _ => if String.eqb w w' then None else Some false   (* slice types: not comparable *)
+  | VWrap w _, VWrap w' _ => if bytes_eqb w w' then None else Some false   (* slice types: not comparable *)
   | VPtr _, VPtr _ => None                               (* not produced by any constructor *)
   | _, _ => Some false                                   (* different dynamic types *)
   end.
@@ -470,15 +479,18 @@ Fixpoint deep_eq (a b : val) {struct a} : bool :=
   | VTime x, VTime y => (tinst x =? tinst y) && (tloc x =? tloc y)
   | VLoc x, VLoc y => x =? y
   | VPtr x, VPtr y => deep_eq x y
-  | VWrap w x, VWrap w' y => String.eqb w w' && deep_eq x y
+  | VWrap w x, VWrap w' y => bytes_eqb w w' && deep_eq x y
   | VSlice n x, VSlice m y =>
-      Bool.eqb n m &&
+      (* nil and empty slices differ; the same backing array and length is equal without looking
+         at the elements (so NaN elements do not matter) *)
+      Bool.eqb (n =? 0) (m =? 0) &&
+      (negb (n =? 0) && (n =? m) ||
       (fix go (x y : list val) {struct x} : bool :=
          match x, y with
          | [], [] => true
          | p :: x', q :: y' => deep_eq p q && go x' y'
          | _, _ => false
-         end) x y
+         end) x y)
   | VFld t k i s x, VFld t' k' i' s' x' =>
       (t =? t') && bytes_eqb k k' && (i =? i') && bytes_eqb s s' && deep_eq x x'
   | _, _ => false
